@@ -89,6 +89,8 @@ def main():
                     if name in f or (name == "parser" and ("commands" in f or "tools" in f)) or (name == "managesieve" and "digest" in f):
                         fam += props
             fam = [p for p in dict.fromkeys(fam) if p != prop]
+            if os.environ.get("SEEDCHECK_FAMILY", "1") == "0":
+                fam = []
             res = {}
             res[prop + ":quick"] = run_check(prop, wt, "quick")
             caught = res[prop + ":quick"]["exit"] == 1
